@@ -82,6 +82,8 @@ impl<'a> Models<'a> {
         self.labels
             .iter()
             .flat_map(|label| {
+                #[cfg(jbonsai_verif)]
+                crate::verif::yield_point(4);
                 self.voices
                     .weighted(weights, |voice| {
                         voice.duration_model.get_parameter(2, label)
@@ -103,6 +105,8 @@ impl<'a> Models<'a> {
             .iter()
             .flat_map(|label| {
                 (2..2 + global_metadata.num_states).map(|state_index| {
+                    #[cfg(jbonsai_verif)]
+                    crate::verif::yield_point(5);
                     let ModelParameter { parameters, msd } =
                         self.voices.weighted(weights, |voice| {
                             voice.stream_models[stream_index]
@@ -137,6 +141,8 @@ impl<'a> Models<'a> {
             .labels
             .iter()
             .flat_map(|label| {
+                #[cfg(jbonsai_verif)]
+                crate::verif::yield_point(6);
                 let switch = !global_metadata.gv_off_context.test(label);
                 [switch].repeat(global_metadata.num_states)
             })
